@@ -68,14 +68,38 @@ func findCopyLoops(fn *ssa.Function) []copyLoop {
 			return
 		}
 		var wr *ssa.Call
+		var sent *ssa.Phi
 		eachInstr(fn, func(j ssa.Instruction) {
 			w, ok := j.(*ssa.Call)
 			if !ok || !isInvokeOf(w.Common(), "Write") {
 				return
 			}
 			sl, ok := invokeArg(w.Common(), 0).(*ssa.Slice)
-			if !ok || nil != sl.Low || sl.High != ssa.Value(n) || resolveCell(sl.X) != resolveCell(buf) {
+			if !ok || sl.High != ssa.Value(n) || resolveCell(sl.X) != resolveCell(buf) {
 				return
+			}
+			if nil != sl.Low {
+				/* buf[sent:n], sent counting what the writes so far took:
+				the write is repeated until everything has gone. */
+				ph, isPhi := sl.Low.(*ssa.Phi)
+				m := extractOf(w, 0)
+				if !isPhi || nil == m {
+					return
+				}
+				okSent := len(ph.Edges) >= 2
+				for _, e := range ph.Edges {
+					if k, isC := constInt(e); isC && 0 == k {
+						continue
+					}
+					if bo, isBo := e.(*ssa.BinOp); isBo && token.ADD == bo.Op && ((bo.X == ssa.Value(ph) && bo.Y == ssa.Value(m)) || (bo.Y == ssa.Value(ph) && bo.X == ssa.Value(m))) {
+						continue
+					}
+					okSent = false
+				}
+				if !okSent {
+					return
+				}
+				sent = ph
 			}
 			wr = w
 		})
@@ -95,6 +119,18 @@ func findCopyLoops(fn *ssa.Function) []copyLoop {
 				continue
 			}
 			x, y, op := bo.X, bo.Y, bo.Op
+			if nil != sent {
+				/* sent < n fails: nothing was read, or all of it has been
+				written by now. */
+				switch {
+				case x == ssa.Value(sent) && y == ssa.Value(n) && token.LSS == op, x == ssa.Value(n) && y == ssa.Value(sent) && token.GTR == op:
+					zero[Edge{b.Index, b.Succs[1].Index}] = true
+					continue
+				case x == ssa.Value(sent) && y == ssa.Value(n) && token.GEQ == op, x == ssa.Value(n) && y == ssa.Value(sent) && token.LEQ == op:
+					zero[Edge{b.Index, b.Succs[0].Index}] = true
+					continue
+				}
+			}
 			if k, isC := constInt(x); isC && 0 == k && y == ssa.Value(n) {
 				/* 0 op n  ≡  n op' 0 */
 				switch op {
@@ -164,6 +200,21 @@ func findCopyLoops(fn *ssa.Function) []copyLoop {
 			for _, e := range exits {
 				if edgeDominates(e.ifi, e.succ, j) {
 					return
+				}
+			}
+			/* Giving up with io.ErrShortWrite (or the like) below a test
+			of what the write took is a failure too. */
+			if ret := j.(*ssa.Return); nil != nw && 0 != len(ret.Results) {
+				if g := globalLoadName(ret.Results[len(ret.Results)-1]); len(g) > 3 && "Err" == g[:3] {
+					for _, b := range fn.Blocks {
+						ifi := blockIf(b)
+						if nil == ifi || !operandsReach(ifi.Cond, func(x ssa.Value) bool { return x == ssa.Value(nw) }) {
+							continue
+						}
+						if edgeDominates(ifi, 0, j) || edgeDominates(ifi, 1, j) {
+							return
+						}
+					}
 				}
 			}
 			cl.Problems = append(cl.Problems, "the copy can stop although reading and writing succeeded (a return not caused by an error or a short write)")
